@@ -261,3 +261,6 @@ def nontrivial(line):
     if t[0] in ("mpz_export", "mpz_out_raw", "mpz_out_inp_raw") and t[-1] == "0": return None
     if t[0].startswith("mpz_inp_raw") and len(t[1]) <= 1: return None
     return line
+
+# source pins: the C files the Lean model cites (see tools/pins.py)
+PINS = [('mpf/inp_str.c', None), ('mpf/out_str.c', None), ('mpq/inp_str.c', None), ('mpq/out_str.c', None), ('mpz/export.c', None), ('mpz/import.c', None), ('mpz/inp_raw.c', None), ('mpz/inp_str.c', None), ('mpz/out_raw.c', None), ('mpz/out_str.c', None), ('mpz/realloc.c', None), ('printf/doprnt.c', None), ('printf/printffuns.c', None)]
